@@ -170,6 +170,9 @@ def handleC13 (fields : List String) : Verdict :=
   | ["share", what] =>
     { modelOk := false, modelOut := "one shared node per structure",
       oracle := some s!"two different nodes with the structure {what} were handed out by one environment" }
+  | ["table", what] =>
+    { modelOk := false, modelOut := "every reachable node is the table's node for its structure",
+      oracle := some s!"a node reachable from a result is not the node the environment's table holds for its structure: {what}" }
   | ["defs", main, defsS, result, fresh] =>
     -- a formula with `{references}` evaluated in a long-lived ParsedFormula whose definitions change:
     -- `result` is what that evaluation returned, `fresh` what a new ParsedFormula with the same
